@@ -178,11 +178,11 @@ const SINGLE_IDS_THOROUGH: &[(u32, u16)] = &[(1, 0), (7, 3), (300, 65535)];
 
 /// documents of family A: every alphabet object alone (at each id of the tier), one alphabet object at a large id
 /// (in memory only), and the document that holds the whole alphabet at sparse ids (with and, for R5/V5, without /ID)
-fn docs_a(h: &Handler, thorough: bool) -> Vec<DocS> {
+fn docs_a(h: &Handler, ids: &[(u32, u16)]) -> Vec<DocS> {
     let al = alphabet(h);
     let mut out = vec![];
     for (k, (label, o)) in al.iter().enumerate() {
-        for id in if thorough { SINGLE_IDS_THOROUGH } else { SINGLE_IDS_QUICK } {
+        for id in ids {
             out.push(DocS { label: format!("single:{}@{}.{}", label, id.0, id.1), objects: vec![(*id, o.clone())], has_id: true, slack: (k % 3) as u32, reload: true });
         }
     }
@@ -208,10 +208,6 @@ fn docs_b(h: &Handler) -> Vec<DocS> {
 }
 
 const PERM_ALL: u64 = 0xF3C;
-
-fn perm_sets(thorough: bool) -> Vec<u64> {
-    if thorough { vec![PERM_ALL, 0, 0x14, 0x528] } else { vec![PERM_ALL, 0x14] }
-}
 
 fn password_pairs() -> Vec<(String, String)> {
     let a40: String = "Abcdefghij0123456789klmnopqrst!#$%&*+-=?".into();
@@ -247,13 +243,11 @@ fn handlers(thorough: bool) -> Vec<Handler> {
             for strf in ["FRc4", "FAes", "FId", "Identity"] { out.push(mk(Kind::V4, em, stm, strf, vec![])); }
         }
     }
-    let keys: Vec<Vec<u8>> = if thorough { vec![pat(32, 9), vec![0u8; 32]] } else { vec![pat(32, 9)] };
     let names: Vec<&str> = if thorough { vec!["StdCF", "FId", "Identity"] } else { vec!["StdCF", "FId"] };
     for kind in [Kind::R5, Kind::V5] {
-        for key in &keys {
-            for em in [true, false] {
-                for stm in &names { for strf in &names { out.push(mk(kind, em, stm, strf, key.clone())); } }
-            }
+        for em in [true, false] {
+            for stm in &names { for strf in &names { out.push(mk(kind, em, stm, strf, pat(32, 9))); } }
+            if thorough { out.push(mk(kind, em, "StdCF", "StdCF", vec![0u8; 32])); }
         }
     }
     out
@@ -620,24 +614,25 @@ fn check_case(c: &Case, state: Option<&EncryptionState>, formats: &[bool]) -> Fa
 // ---------------------------------------------------------------------------------------------------------------
 
 #[derive(Clone, Copy, PartialEq)]
-enum DocSel { All, Core, Pairs }
+enum DocSel { All, Core, Lit, Pairs }
 
-struct Config { h: Handler, user: String, owner: String, sel: DocSel }
+struct Config { h: Handler, user: String, owner: String, sel: DocSel, ids: &'static [(u32, u16)], both_formats: bool }
 
 /// the documents used with every password pair under V5 (whose password hash, ISO algorithm 2.B, costs about a millisecond per evaluation)
-fn is_core(d: &DocS) -> bool { d.label.starts_with("full") || d.label == "single:lit-33@7.3" || d.label == "single:crypt-StdCF@7.3" }
+fn is_core(d: &DocS) -> bool { d.label == "full" || d.label == "single:lit-33@7.3" }
 
 struct CaseOut { nontrivial: bool, fails: Vec<(String, String, Value)>, sample: String, group: String }
 
-fn run_config(cfg: &Config, thorough: bool) -> Vec<CaseOut> {
+fn run_config(cfg: &Config) -> Vec<CaseOut> {
     let docs: Vec<DocS> = match cfg.sel {
         DocSel::Pairs => docs_b(&cfg.h),
-        DocSel::All => docs_a(&cfg.h, thorough),
-        DocSel::Core => docs_a(&cfg.h, thorough).into_iter().filter(is_core).collect(),
+        DocSel::All => docs_a(&cfg.h, cfg.ids),
+        DocSel::Core => docs_a(&cfg.h, cfg.ids).into_iter().filter(is_core).collect(),
+        DocSel::Lit => docs_a(&cfg.h, cfg.ids).into_iter().filter(|d| d.label == "single:lit-33@7.3").collect(),
     };
     // R5/V5 states do not depend on the document: build once (the key-derivation hash is the expensive part)
     let shared = if cfg.h.legacy() { None } else { catch(|| make_state(&cfg.h, &Document::with_version("1.7"), &cfg.user, &cfg.owner)).ok().and_then(|r| r.ok()) };
-    let formats: &[bool] = if thorough { &[false, true] } else { &[false] };
+    let formats: &[bool] = if cfg.both_formats { &[false, true] } else { &[false] };
     let mut out = Vec::with_capacity(docs.len());
     for d in &docs {
         let c = Case { h: &cfg.h, user: &cfg.user, owner: &cfg.owner, doc: d };
@@ -669,22 +664,28 @@ fn configs(thorough: bool) -> Vec<Config> {
     let mut out = vec![];
     let pws = password_pairs();
     for h0 in handlers(thorough) {
-        for p in perm_sets(thorough) {
+        let v5 = h0.kind == Kind::V5;
+        let perms = if thorough { vec![PERM_ALL, 0, 0x14, 0x528] } else if v5 { vec![PERM_ALL] } else { vec![PERM_ALL, 0x14] };
+        for p in perms {
             for (u, o) in &pws {
                 let mut h = h0.clone();
                 h.perms = p;
-                let sel = if h.kind == Kind::V5 && !(p == PERM_ALL && u == "user" && o == "owner") { DocSel::Core } else { DocSel::All };
-                out.push(Config { h, user: u.clone(), owner: o.clone(), sel });
+                let anchor = p == PERM_ALL && u == "user" && o == "owner";
+                // thorough: the full cross product except for V5; quick: password dimension on the core documents, document dimension on the anchor configuration
+                let sel = if anchor { DocSel::All } else if thorough { if v5 { DocSel::Core } else { DocSel::All } } else if v5 { DocSel::Lit } else { DocSel::Core };
+                let ids = if thorough && !v5 { SINGLE_IDS_THOROUGH } else { SINGLE_IDS_QUICK };
+                out.push(Config { h, user: u.clone(), owner: o.clone(), sel, ids, both_formats: thorough && !v5 });
             }
         }
     }
     if thorough {
-        // family B: ordered pairs of alphabet objects, one password pair, all permissions; R5/V5 with the first key and registered filters only
+        // family B: ordered pairs of alphabet objects, one password pair, all permissions
         for h0 in handlers(false) {
-            if h0.kind == Kind::V5 && !h0.em { continue; }
+            let v5 = h0.kind == Kind::V5;
+            if v5 && !(h0.em && h0.stm == "StdCF" && h0.strf == "StdCF") { continue; }
             let mut h = h0.clone();
             h.perms = PERM_ALL;
-            out.push(Config { h, user: "user".into(), owner: "owner".into(), sel: DocSel::Pairs });
+            out.push(Config { h, user: "user".into(), owner: "owner".into(), sel: DocSel::Pairs, ids: SINGLE_IDS_QUICK, both_formats: !v5 });
         }
     }
     out
@@ -707,7 +708,7 @@ pub fn run(thorough: bool) -> Report {
     if let Ok(only) = std::env::var("C05_ONLY") { cfgs.retain(|c| format!("{:?}", c.h.kind).starts_with(&only)); } // debugging aid: restrict to one handler kind
     let prev = std::panic::take_hook();
     std::panic::set_hook(Box::new(|_| {}));
-    let results: Vec<Vec<CaseOut>> = cfgs.par_iter().map(|c| run_config(c, thorough)).collect();
+    let results: Vec<Vec<CaseOut>> = cfgs.par_iter().map(run_config).collect();
     std::panic::set_hook(prev);
     let mut n = 0u64;
     let stats = std::env::var("C05_STATS").is_ok();
